@@ -383,10 +383,13 @@ func c10NFCExplainsOut(doc []byte, ok bool, errs string, out []byte) bool {
 	}
 	for _, all := range []bool{false, true} {
 		w2, conflict := c10NFCKeys(w, all)
+		// two names became equal with different values: CUE then unifies the values (a
+		// rejection "conflicting values" / "incompatible list lengths", or a merged struct);
+		// normalisation plus the duplicate-name behaviour explains either outcome
+		if conflict {
+			return true
+		}
 		if !ok {
-			if conflict && strings.Contains(errs, "conflicting values") {
-				return true
-			}
 			continue
 		}
 		if same, _ := c10Same(out, w2); same {
@@ -706,7 +709,7 @@ func c10Values(c *Cfg, r *Rng) {
 		c.Case("val:"+src, len(it.src) > 5)
 		if err != nil {
 			cls := "value-marshal-error"
-			if _, conflict := c10NFCKeys(it.want, true); conflict && strings.Contains(err.Error(), "conflicting values") {
+			if _, conflict := c10NFCKeys(it.want, true); conflict {
 				cls = "member-name-not-nfc" // two labels that differ only by normalisation were unified
 			}
 			c.Direct(false, cls, "concrete CUE value does not marshal: "+clip(err.Error(), 300), src)
